@@ -6,8 +6,14 @@ of uncaught exception is one class) and, when both compile, the whole rendered f
 canonical action payloads, the router kind / operand / wait / result name, cases (type, arguments, category),
 categories (name, exit), exits (destination), the default category — up to a bijective renaming of INVENTED
 uuids (renamed by first occurrence in one fixed traversal on both sides; a GIVEN `_nodeId` must be kept
-literally).  Not compared: argument 0 of has_group cases (the group uuid written by update_global_uuids:
-identifiers of groups are C06's subject and are not modelled).
+literally).  Not compared: the VALUE of argument 0 of a two-argument has_group case (the group uuid written by
+update_global_uuids: identifiers of groups are C06's subject and are not modelled); the number of arguments is.
+
+The model is given the rows AS THE RENDERED SHEET HOLDS THEM (sheetgen.written_rows): with the edges.N.* headers every
+row has as many edge entries as the widest row, the missing ones blank - what FlowParser's row parser hands to
+_parse_next_row.  Whether such a padding entry is an edge is the model's to say (Gen/Tables.v:
+padding_edges_dropped_at_read), as is the shape of a has_group test outside a group split (has_group_edges_by_name,
+has_group_by_name_from_noop; a has_group case with one argument is an IndexError when the container is validated).
 
 Sheets: the core generator (well-formed and ill-formed), sheets with merged rows, block-structured sheets (the
 reference desugaring of generated loops/blocks: begin_block/end_block only), a directed list that exercises
@@ -27,7 +33,7 @@ ERR_NAMES = {1: "block-conditional-edge", 2: "block-no-loose-exit", 3: "entry-of
              5: "no-default-exit", 6: "edge-from-missing-row", 7: "go_to-destination-count", 8: "merge-wrong-source",
              9: "merge-needs-one-unconditional-edge", 10: "unterminated-block", 11: "wrong-block-terminator",
              12: "unexpected-end-of-flow", 13: "category-name-too-long", 14: "duplicate-node-uuid", 15: "crash",
-             16: "MODEL-INTERNAL", 17: "MODEL-OUT-OF-FUEL"}
+             16: "MODEL-INTERNAL", 17: "MODEL-OUT-OF-FUEL", 18: "category-name-taken"}
 CRASH_NAMES = {1: "KeyError", 2: "IndexError", 3: "AttributeError", 4: "ValueError", 5: "RapidProActionError"}
 CRITICAL_PATTERNS = [
     (1, "Cannot attach conditional edges to a block"), (2, "Block has no loose exit"),
@@ -35,7 +41,7 @@ CRITICAL_PATTERNS = [
     (5, "does not support default exits"), (6, "which does not exist"), (7, "number of destinations"),
     (8, "edge must come from a node with name"), (9, "exactly one unconditional incoming edge"),
     (10, "Sheet has unterminated block"), (11, "Wrong block terminator"), (12, "Unexpected end of flow"),
-    (13, "Category name too long"), (14, "is used by more than one node")]
+    (13, "Category name too long"), (14, "is used by more than one node"), (18, "is taken by the default or")]
 
 
 # ---------------------------------------------------------------- rows -> model input
@@ -152,7 +158,9 @@ def canon(flow, given):
                  "categories": [(r(x["uuid"]), x["name"], r(x["exit_uuid"])) for x in rt["categories"]]}
             if rt["type"] == "switch":
                 c["operand"] = rt["operand"]
-                c["cases"] = [(r(k["uuid"]), k["type"], (k["arguments"][1:] if k["type"] == "has_group" else k["arguments"]), r(k["category_uuid"]))
+                c["cases"] = [(r(k["uuid"]), k["type"],
+                               (["<group uuid>"] + list(k["arguments"][1:]) if k["type"] == "has_group" and len(k["arguments"]) >= 2 else list(k["arguments"])),
+                               r(k["category_uuid"]))
                               for k in rt["cases"]]
                 c["default"] = r(rt["default_category_uuid"])
                 w = rt["wait"]
@@ -243,8 +251,18 @@ def compare(ctx, rows, label, stats, doc_sink=None):
         doc_sink.append((im[2], rows, headers, [[c.get(h, "") for h in headers] for c in cells]))
     if m is None:
         return im
-    mo = model_compile(m, rows)
-    case = dict(label=label, rows=rows, headers=headers, cells=[[c.get(h, "") for h in headers] for c in cells])
+    wrows = sheetgen.written_rows(rows, headers)
+    if len(wrows[0]["edges"]) != len(rows[0]["edges"]) or any(len(a["edges"]) != len(b["edges"]) for a, b in zip(wrows, rows)):
+        stats["sheets_with_padding_entries"] = stats.get("sheets_with_padding_entries", 0) + 1
+        for a, b in zip(wrows, rows):
+            if len(a["edges"]) != len(b["edges"]):
+                stats["padded_rows_" + a["type"]] = stats.get("padded_rows_" + a["type"], 0) + 1
+    for r in rows:
+        for e in r["edges"]:
+            if e["ctype"] == "has_group":
+                stats["has_group_conditions"] = stats.get("has_group_conditions", 0) + 1
+    mo = model_compile(m, wrows)
+    case = dict(label=label, rows=wrows, headers=headers, cells=[[c.get(h, "") for h in headers] for c in cells])
     if mo[0] == "bad":
         ctx.disagree("compiler model could not read the sheet", case, mo[1], im[0])
         return im
@@ -342,6 +360,32 @@ def directed():
                                             msg("3", [E("1", value="yes"), E("1", value="YES"), E("1", value="yes")]), msg("4", [E("1", ctype="has_text"), E("1", ctype="has_text")])]),
         ("retargeting", [msg("1", S), msg("2", "1"), msg("3", "1"), wait("4", "3"), msg("5", [E("4")]), msg("6", [E("4")])]),
         ("anonymous rows and blank from", [msg("", S), msg("", ""), wait("", ""), msg("", [E("", value="a")]), msg("x", "")]),
+        # ---- rectangular sheets: blank padding entries in rows of every type (written literally: rendered with edges.N.* headers)
+        ("padding: go_to / no_op / exits", sheetgen.pad_rows([
+            msg("1", S), wait("2", "1"), msg("3", [E("2", value="a"), E("2", value="b")]), row("go_to", "", [E("3")], ["1"]),
+            msg("4", [E("2", value="c")]), row("no_op", "n", [E("4")]), msg("5", "n"), row("hard_exit", "", [E("2", value="d")]),
+            msg("6", [E("2", value="e")]), row("loose_exit", "", [E("2", value="f")]), msg("7", [E("6"), E("5")])])),
+        ("padding: blocks and merged rows", sheetgen.pad_rows([
+            msg("1", S, node_uuid=N1), msg("2", "1", "again", node_uuid=N1), wait("3", "2"), bblock("B", [E("3", value="a")]), msg("b1", ""), msg("b2", "b1"), EB,
+            msg("4", [E("B"), E("3", value="b")]), msg("5", "4", node_name="nn"), msg("6", "5", "more", node_name="nn")])),
+        ("padding: blank first edge, starting block", sheetgen.pad_rows([
+            bblock("B", S), msg("b1", S), msg("b2", ""), EB, wait("2", "B"), msg("3", [E("2", value="x"), E("2", value="y")]), msg("4", "")])),
+        ("padding: go_to with several targets", sheetgen.pad_rows([
+            msg("1", S), wait("2", "1"), msg("3", [E("2", value="p"), E("2", value="q"), E("2", value="r")]),
+            row("go_to", "", [E("2", value="x"), E("2", value="y")], ["3", "1"]), row("go_to", "", [E("3")], ["1"])])),
+        # ---- has_group tests (group membership by NAME) outside group splits
+        ("has_group on edges of a wait / a value split / an action row", [
+            wait("1", S), msg("2", [E("1", value="grp one", ctype="has_group"), E("1", value="x")]),
+            row("split_by_value", "3", "2", "@fields.a"), msg("4", [E("3", value="grp two", ctype="has_group", name="In Two")]),
+            msg("5", [E("4", value="grp one", ctype="has_group", variable="@contact.groups")]), msg("6", [E("4", value="grp one", ctype="has_group")]),
+            row("split_by_group", "7", "5", ["grp one"]), msg("8", [E("7", value="grp one"), E("7", value="grp two", ctype="has_group")])]),
+        ("has_group on an edge leaving a no_op decision", [
+            msg("1", S), row("no_op", "n", "1"), msg("2", [E("n", value="grp one", ctype="has_group", variable="@contact.groups")]), msg("3", [E("n")])]),
+        # ---- an explicit category name that is already the name of another category of the router (findings category-name-clash)
+        ("clash: explicit name equals a generated name", [wait("1", S), msg("2", [E("1", value="yes")], "A"), msg("3", [E("1", value="yeah", name="Yes")], "B")]),
+        ("clash: explicit name Other", [wait("1", S), msg("2", [E("1")], "A"), msg("3", [E("1", value="x", name="Other")], "B")]),
+        ("clash: explicit name No Response", [wait("1", S, no_response="60"), msg("2", [E("1", value="No Response")], "A"),
+                                              msg("3", [E("1", value="x", name="No Response")], "B")]),
         # ---- error classes
         ("err: edge from a missing row", [msg("1", S), msg("2", "nope")]),
         ("err: go_to into a no_op", [msg("1", S), row("no_op", "n", "1"), msg("2", "n"), row("go_to", "", [E("2")], ["n"])]),
@@ -469,7 +513,8 @@ def run(ctx, n, doc_sink=None):
     for i in range(n):
         x = rng.random()
         if x < 0.40:
-            rows, _ = sheetgen.gen_core_sheet(rng, rng.choice([2, 3, 5, 8, 14, 25]), wf=rng.random() < 0.6, special_text=rng.random() < 0.4)
+            rows, _ = sheetgen.gen_core_sheet(rng, rng.choice([2, 3, 5, 8, 14, 25]), wf=rng.random() < 0.6, special_text=rng.random() < 0.4,
+                                              has_group=rng.random() < 0.5)
             label = "core"
         elif x < 0.52:
             rows, _ = sheetgen.gen_merge_sheet(rng, rng.choice([2, 5, 9]))
